@@ -645,6 +645,34 @@ func caseMap(upper bool) externalFn {
 		}
 		c := P.ctx
 		b := strBytes(args[0])
+		// text that may contain non-ASCII bytes: the library maps whole runes
+		// (and replaces invalid bytes), so the symbolic bytes are enumerated
+		// (every value, no cap below 256) and the real function is applied
+		nonASCII := c.Bool(false)
+		concNonASCII := false
+		for _, v := range b {
+			switch v := v.(type) {
+			case uint8:
+				concNonASCII = concNonASCII || v >= 0x80
+			case sym:
+				nonASCII = c.BOr(nonASCII, c.Ule(c.BV(8, 0x80), v.t))
+			}
+		}
+		if concNonASCII || P.branch(nonASCII) {
+			raw := make([]byte, len(b))
+			for i, v := range b {
+				switch v := v.(type) {
+				case uint8:
+					raw[i] = v
+				case sym:
+					raw[i] = byte(P.concretizeCap(v, "byte of non-ASCII text in ToUpper/ToLower", 256))
+				}
+			}
+			if upper {
+				return strings.ToUpper(string(raw))
+			}
+			return strings.ToLower(string(raw))
+		}
 		out := make([]value, len(b))
 		for i, v := range b {
 			switch v := v.(type) {
@@ -658,7 +686,6 @@ func caseMap(upper bool) externalFn {
 					out[i] = strings.ToLower(string(rune(v)))[0]
 				}
 			case sym:
-				asciiOnly(v, "byte in ToUpper/ToLower")
 				var in *smt.Term
 				if upper {
 					in = c.BAnd(c.Ule(c.BV(8, 'a'), v.t), c.Ule(v.t, c.BV(8, 'z')))
@@ -744,10 +771,69 @@ func unicodePred(name string, ascii func(c *smt.Ctx, r *smt.Term) *smt.Term, nat
 		if P.branch(isASCII) {
 			return mkVal(types.Bool, ascii(c, s.t))
 		}
-		P.note("unicode." + name + " on a symbolic non-ASCII rune: unconstrained result")
-		v := c.Var(fmt.Sprintf("uni_%s_%d", name, len(c.Vars)), 0)
-		return sym{types.Bool, v}
+		// above ASCII: the exact set, as a disjunction of the ranges on which the
+		// library predicate holds (computed once from the real function)
+		// (split by encoded length first, so that the formula only lists the ranges
+		// the rune can fall into: 2-byte, 3-byte, 4-byte sequences)
+		lo, hi := rune(0x10000), rune(0x10FFFF)
+		if P.branch(c.Ult(s.t, c.BV(32, 0x800))) {
+			lo, hi = 0x80, 0x7FF
+		} else if P.branch(c.Ult(s.t, c.BV(32, 0x10000))) {
+			lo, hi = 0x800, 0xFFFF
+		}
+		var terms []*smt.Term
+		for _, r := range unicodeRanges(name, native) {
+			if r[1] < lo || r[0] > hi {
+				continue
+			}
+			a, b := r[0], r[1]
+			if a < lo {
+				a = lo
+			}
+			if b > hi {
+				b = hi
+			}
+			terms = append(terms, c.BAnd(c.Ule(c.BV(32, uint64(a)), s.t), c.Ule(s.t, c.BV(32, uint64(b)))))
+		}
+		// balanced disjunction
+		for len(terms) > 1 {
+			var next []*smt.Term
+			for i := 0; i+1 < len(terms); i += 2 {
+				next = append(next, c.BOr(terms[i], terms[i+1]))
+			}
+			if len(terms)%2 == 1 {
+				next = append(next, terms[len(terms)-1])
+			}
+			terms = next
+		}
+		if len(terms) == 0 {
+			return false
+		}
+		return mkVal(types.Bool, terms[0])
 	}
+}
+
+var unicodeRangeCache = map[string][][2]rune{}
+
+// unicodeRanges lists the maximal rune ranges in [0x80, 0x10FFFF] on which pred holds.
+func unicodeRanges(name string, pred func(rune) bool) [][2]rune {
+	if rs, ok := unicodeRangeCache[name]; ok {
+		return rs
+	}
+	var rs [][2]rune
+	start := rune(-1)
+	for r := rune(0x80); r <= 0x10FFFF+1; r++ {
+		in := r <= 0x10FFFF && pred(r)
+		if in && start < 0 {
+			start = r
+		}
+		if !in && start >= 0 {
+			rs = append(rs, [2]rune{start, r - 1})
+			start = -1
+		}
+	}
+	unicodeRangeCache[name] = rs
+	return rs
 }
 
 func asciiLetter(c *smt.Ctx, r *smt.Term) *smt.Term {
